@@ -167,16 +167,67 @@ class Outcome:
         self.unrecognised = []
 
 
-def success_edges(body, bi):
+def success_edges(body, bi, follow_rewrap=False):
     """A4: from the destination of the call in block bi (returning Result/Option/bool), follow the
-    value to the SwitchInt(s) that test it; return Outcome. 'ok' means Ok / Some / true."""
-    cfg = body.cfg
+    value to the SwitchInt(s) that test it; return Outcome. 'ok' means Ok / Some / true.
+    A result that is re-wrapped (`match r { Ok(v) => Ok(v), Err(_) => Err(E) }`, the return slot of a spliced
+    helper) is followed too: a local of Result/Option type all of whose possibly-successful definitions lie behind
+    the success edges found so far is successful only if the original was; its success edges are added."""
     t = body.blocks[bi]["term"]
-    out = Outcome()
     dest = t["dest"]
     if dest.get("p"):
+        out = Outcome()
         out.unrecognised.append("call destination is not a local")
         return out
+    out = _success_edges_from(body, dest["l"])
+    if not out.ok_edges or not follow_rewrap:
+        return out
+    from .region import dominated_by_edges
+    du = defuse(body)
+    done = {dest["l"]}
+    for _round in range(3):
+        grown = False
+        for l, defs in du.defs.items():
+            if l in done or l == 0 and False:
+                continue
+            k2 = _ty_kind(body.local_ty(l))
+            if k2 not in ("result", "option"):
+                continue
+            good = 0
+            ok_all = True
+            for d in defs:
+                if d[0] == "stmt":
+                    rv = d[3]["rv"]
+                    if rv["k"] == "aggregate" and rv.get("agg") == "adt" and rv.get("variant") in ("Err", "None"):
+                        continue
+                    if rv["k"] == "aggregate" and rv.get("agg") == "adt" and rv.get("variant") in ("Ok", "Some"):
+                        if dominated_by_edges(body, out.ok_edges, d[1]):
+                            good += 1
+                            continue
+                    ok_all = False
+                    break
+                else:
+                    tt = d[2]
+                    if callee_is(tt, "FromResidual>::from_residual", "from_residual"):
+                        continue
+                    ok_all = False
+                    break
+            if ok_all and good:
+                done.add(l)
+                sub = _success_edges_from(body, l)
+                new = sub.ok_edges - out.ok_edges
+                if new:
+                    out.ok_edges |= new
+                    grown = True
+        if not grown:
+            break
+    return out
+
+
+def _success_edges_from(body, start_local):
+    cfg = body.cfg
+    out = Outcome()
+    dest = {"l": start_local}
     kind = _ty_kind(body.local_ty(dest["l"]))
     if kind is None:
         out.unrecognised.append("call does not return Result/Option/bool")
@@ -267,7 +318,7 @@ def success_edges(body, bi):
 
 def dominated_by_ok(body, bi_call, target, outcome=None):
     """True if block `target` is dominated by the success edges of the call at bi_call."""
-    oc = outcome or success_edges(body, bi_call)
+    oc = outcome or success_edges(body, bi_call, follow_rewrap=True)
     if not oc.ok_edges:
         return False
     cfg = body.cfg
@@ -331,6 +382,106 @@ def propagates_error(body, bi_call):
     if bad:
         return False, "after the failure a non-error result can still be returned (%s in bb%d)" % bad[0]
     return True, "every return reachable from the failure edges is an Err (%d site(s))" % len(sites)
+
+
+def internal_sweeps(prog, body, container_pred, callee_did):
+    """Internal-iteration form of a complete sweep: `container.iter_mut().for_each(f)` (or iter()/values_mut())
+    where f is the callee itself (function item) or a closure whose every path calls it.  Returns the blocks of
+    such for_each calls."""
+    out = []
+    for bi, t in body.calls():
+        if not callee_is(t, "iter::Iterator::for_each", "Iterator>::for_each", "Iterator::for_each") or len(t["args"]) < 2:
+            continue
+        src = deep_root(body, t["args"][0])
+        # the receiver is an iterator created from the container
+        o = origin(body, t["args"][0])
+        ok_src = False
+        cur = t["args"][0]
+        for _ in range(4):
+            o = origin(body, cur)
+            if o[0] == "call" and o[2]["args"]:
+                r = deep_root(body, o[2]["args"][0])
+                if r is not None and container_pred(r):
+                    ok_src = True
+                    break
+                cur = o[2]["args"][0]
+                continue
+            break
+        if not ok_src:
+            continue
+        f = t["args"][1]
+        applies = False
+        if f.get("k") == "const" and f.get("fn"):
+            hits = [b for b in prog.bodies if b.path == f["fn"]]
+            applies = len(hits) == 1 and hits[0].did == callee_did
+        else:
+            r = op_root(body, f)
+            d = defuse(body).single_def(r["l"]) if r is not None else None
+            if d and d[0] == "stmt" and d[3]["rv"].get("agg") == "closure":
+                cb = prog.by_did.get(d[3]["rv"]["closure_did"])
+                if cb is not None:
+                    calls = [ci for ci, ct in cb.calls() if any(dd == callee_did for _k, dd in prog.cg.resolve(cb, ct))]
+                    applies = bool(calls) and not any(x in cb.cfg.exits for x in cb.cfg.reachable_from([0], avoid_blocks=calls))
+        if applies:
+            out.append(bi)
+    return out
+
+
+INTERNAL_SWEEP_CALLS = ("iter::Iterator::for_each", "Iterator>::for_each", "Iterator::for_each")
+SHORT_CIRCUIT_ADAPTERS = ("iter::Iterator::take_while", "iter::Iterator::take", "iter::Iterator::skip_while", "iter::Iterator::map_while",
+                          "iter::Iterator::try_for_each", "iter::Iterator::any", "iter::Iterator::all", "iter::Iterator::find",
+                          "iter::Iterator::position", "iter::Iterator::step_by", "iter::Iterator::skip", "iter::Iterator::nth")
+
+
+def sweep_closures(prog, fn):
+    """Closures of fn that are the body of an internal iteration (`iter.for_each(|x| ..)`) whose iterator chain has
+    no short-circuiting adapter.  Returns list of (closure body, for_each block in fn or in the enclosing closure)."""
+    out = []
+    bodies = [fn] + prog.closures_of(fn)
+    for b in bodies:
+        for bi, t in b.calls():
+            if not callee_is(t, *INTERNAL_SWEEP_CALLS) or len(t["args"]) < 2:
+                continue
+            # walk the adapter chain of the receiver
+            cur = t["args"][0]
+            short = False
+            for _ in range(8):
+                o = origin(b, cur)
+                if o[0] == "call" and o[2]["args"]:
+                    if callee_is(o[2], *SHORT_CIRCUIT_ADAPTERS):
+                        short = True
+                    cur = o[2]["args"][0]
+                    continue
+                break
+            if short:
+                continue
+            r = op_root(b, t["args"][1])
+            d = defuse(b).single_def(r["l"]) if r is not None else None
+            if d and d[0] == "stmt" and d[3]["rv"].get("agg") == "closure":
+                cb = prog.by_did.get(d[3]["rv"]["closure_did"])
+                if cb is not None:
+                    out.append((cb, b, bi))
+    return out
+
+
+def sweep_stores(prog, fn, adt, field, const=None):
+    """Stores to adt.field (optionally of a given constant) that happen once per element of a sweep: inside a loop
+    of fn, or inside a closure run by for_each.  Returns list of (body, block)."""
+    out = []
+    def match(s):
+        if s["k"] != "assign" or not place_is_field(s["place"], adt, field):
+            return False
+        if const is None:
+            return True
+        return s["rv"]["k"] == "use" and op_const(s["rv"]["op"]) == const
+    for bi, si, s in fn.stmts():
+        if match(s) and fn.cfg.in_loop(bi):
+            out.append((fn, bi))
+    for (cb, _b, _bi) in sweep_closures(prog, fn):
+        for bi, si, s in cb.stmts():
+            if match(s):
+                out.append((cb, bi))
+    return out
 
 
 # ------------------------------------------------------------------ A5 gate functions
